@@ -10,7 +10,7 @@ import signal
 from types import SimpleNamespace
 from typing import List
 
-from engine.harness_api import Ob, setup, pick
+from engine.harness_api import Ob, setup, pick, ns
 setup(shim=False)
 
 import gunicorn.arbiter as A  # noqa: E402
@@ -85,12 +85,14 @@ def mk_cfg(workers, bind, pidfile, K):
 
 def reload_(k: int, w2: int, bi: int, pf: int, tape: List[int], st: List[int], hups: int, wrap: bool) -> bool:
     """
-    pre: 0 <= k <= CASE["k"] and 1 <= w2 <= 3 and 0 <= pf <= 2 and 1 <= hups <= CASE["hups"] and 0 <= bi <= 4
+    pre: k == CASE["k"] and 1 <= w2 <= 3 and 0 <= pf <= 2 and 1 <= hups <= CASE["hups"] and bi == CASE["bi"]
+    pre: wrap == CASE["wrap"]
     pre: len(tape) <= CASE["tape"] and all(0 <= e <= 3 for e in tape)
     pre: len(st) <= CASE["tape"] and all(0 <= s <= 1 for s in st)
     post: __return__
     """
-    k, w2, pf, hups, bi = pick(k, 0, CASE["k"]), pick(w2, 1, 3), pick(pf, 0, 2), pick(hups, 1, CASE["hups"]), pick(bi, 0, 4)
+    k, bi, wrap = CASE["k"], CASE["bi"], CASE["wrap"]
+    w2, pf, hups = pick(w2, 1, 3), pick(pf, 0, 2), pick(hups, 1, CASE["hups"])
     K = KS.Kernel(tape=tape, statuses=[STATUS_SET[s] for s in st], master_signals=[int(signal.SIGHUP)] * hups,
                   budget=hups + len(tape) + 4)
     if wrap:
@@ -125,7 +127,7 @@ def reload_(k: int, w2: int, bi: int, pf: int, tape: List[int], st: List[int], h
         l2 = [Lsn(a) for a in cfg.address]
         created.append(l2)
         return l2
-    A.sock = SimpleNamespace(create_sockets=create_sockets, close_sockets=lambda l, u=True: None)
+    A.sock = ns("A.sock", create_sockets=create_sockets, close_sockets=lambda l, u=True: None)
     A.Pidfile = PidRec
     code = None
     try:
@@ -186,7 +188,8 @@ def reload_(k: int, w2: int, bi: int, pf: int, tape: List[int], st: List[int], h
 
 def reload_twin(k: int, w2: int, bi: int, pf: int, tape: List[int], st: List[int], hups: int, wrap: bool) -> bool:
     """
-    pre: 0 <= k <= CASE["k"] and 1 <= w2 <= 3 and 0 <= pf <= 2 and 1 <= hups <= CASE["hups"] and 0 <= bi <= 4
+    pre: k == CASE["k"] and 1 <= w2 <= 3 and 0 <= pf <= 2 and 1 <= hups <= CASE["hups"] and bi == CASE["bi"]
+    pre: wrap == CASE["wrap"]
     pre: len(tape) <= CASE["tape"] and all(0 <= e <= 3 for e in tape)
     pre: len(st) <= CASE["tape"] and all(0 <= s <= 1 for s in st)
     post: __return__
@@ -196,11 +199,16 @@ def reload_twin(k: int, w2: int, bi: int, pf: int, tape: List[int], st: List[int
     return not reload_(k, w2, bi, pf, tape, st, hups, wrap)
 
 
+def _cases(ks, tape, hups):
+    return [{"k": k, "bi": bi, "wrap": wrap, "tape": tape, "hups": hups} for k in ks for bi in range(5) for wrap in (False, True)
+            if not (k == 0 and wrap)]
+
+
 OBLIGATIONS = [
-    Ob("C10.reload", "reload_", cases={"quick": [{"k": 2, "tape": 1, "hups": 1}], "thorough": [{"k": 3, "tape": 2, "hups": 2}]},
-       timeout={"quick": 900, "thorough": 3000},
+    Ob("C10.reload", "reload_", cases={"quick": _cases((0, 1, 2), 1, 1), "thorough": _cases((0, 1, 2, 3), 2, 2)},
+       timeout={"quick": 600, "thorough": 3000},
        bound="old pool 0..2 (thorough 3) workers, new workers 1..3, new bind = same / same with tcp:// prefix / other port / same "
              "with different host case / other host name (real Config parsing), pid counter wrapped or not, pid file none/same/different, "
              "crash tape <=1 (2) over every kill/sleep boundary, 1 (2) HUPs, 4 quiet loops"),
-    Ob("C10.reload.twin", "reload_twin", cases=[{"k": 2, "tape": 1, "hups": 1}], expect="refute", timeout=300),
+    Ob("C10.reload.twin", "reload_twin", cases=[{"k": 2, "bi": 1, "wrap": True, "tape": 1, "hups": 1}], expect="refute", timeout=300),
 ]
